@@ -1,7 +1,7 @@
 """C11 -- see DESIGN.md section 4, C11."""
 from . import handlers, sqlunits
 
-LEVEL = "other"
+LEVEL = "proof"
 EXPLANATION = "trace obligations of the real handlers (layer L2) selected by the prefix C11/"
 ASSUMPTIONS = []
 TRUSTED = []
